@@ -10,35 +10,49 @@ driver = "drv_reply"
 cxx = False
 fixed_lines = 2
 link_extra = ("-Wl,--wrap=malloc", "-Wl,--wrap=realloc")
-rule = ("three kinds of scripts. stream: 's open <idlen>' (mpt_stream_input on a socketpair, the driver is the peer), then for 7 "
+rule = ("kinds of scripts. stream: 's open <idlen> [ro]' (mpt_stream_input on a socketpair, the driver is the peer; ro = stream "
+        "that cannot be written), then for 7 "
         "kinds of id header (zero, 1, 7fff.., reply-marked, ff.., 0100.., too short) a request frame handled by a scripted handler "
-        "running EVERY act list up to length 3 over {reply:4142, reply:-, replynull, defer, ret:0, ret:-4, ret:5}, header widths "
-        "0,1,2,3,8,9, plus 300-byte payloads and width 255/256; connection: the same requests through mpt_connection_dispatch on a "
-        "stream-backed connection ('c open/req/dreply/close'), deferred handles answered or dropped afterwards and after close; ids: 'r id2buf <id> <w>' followed by 'r buf2id <big-endian bytes of id>' for every id in "
+        "running EVERY act list up to length 3 over {reply:4142, reply:-, replynull, defer, ret:0, ret:-4, ret:5 (Default|Terminate flags)}, header widths "
+        "0,1,2,3,8,9, plus 300-byte payloads and width 255/256; failing transport: every act list up to length 3 over {replyfail (the "
+        "stream's write queue cannot grow: realloc wrapped, 1st growth), replyfail2 (2nd growth inside a 600-byte message: the "
+        "started frame is taken back), reply, replynull, defer, ret} with at least one failing attempt, on the first request of "
+        "a fresh stream / connection, followed by a second request; connection: the same requests through mpt_connection_dispatch on a "
+        "stream-backed connection ('c open/req/dreply/close') and on a datagram socket ('c open <w> dgram', replies of 253..1000 bytes), "
+        "deferred handles answered or dropped afterwards and after close, 'discard' = dispatch without handler; "
+        "requester side: 'c await/send' resp. the C++ io::stream ('xr await/send/answer/sync/abort/close') with up to 3 (9 for "
+        "follow-ups) requests in flight answered in every order incl. duplicates and unknown ids, through dispatch and through "
+        "sync; reply commands that report failure (tags >= 900000) and commands that register a follow-up request from inside "
+        "(tags 800000..899999), undecodable 9-byte ids; ids: 'r id2buf <id> <w>' followed by 'r buf2id <big-endian bytes of id>' for every id in "
         "{0,1,127,128,255,256, 2^k-1, 2^k, 2^k+1 for k = 15,16,23,24,31,32,39,40,47,48,55,56,63, 2^64-1} and seeded random "
         "ids x every width 0..9 (+ 16, 300), and buf2id on byte strings with leading zeros / 9-10 significant bytes; "
         "histories: 'r send <schedule>', 'r ctx <w>' then EVERY sequence of length <= 5 that starts with an arm (all sequences up to length 2; thorough: length 6 with the first two schedules) over "
-        "{arm A, arm B, reply m, reply none, defer, dreply 0 m, dreply 1 m, drop 0, drop 1, drop ctx} x 4 transport schedules "
-        "(all ok; first fails; second fails; all fail), closed by 'drop 0, drop 1, drop ctx'; plus seeded random histories of "
+        "{arm A, arm B, reply m, reply none, defer, dreply 0 m, dreply 1 m, drop 0, drop 1, drop ctx, creply} x 4 transport schedules "
+        "(all ok; first fails; second fails; all fail), closed by 'drop 0, drop 1, drop ctx'; every sequence up to length 3 that "
+        "contains one of {arm with NULL data, arm -, probe (interfaces of the context), reref (second reference released), "
+        "creply with bad code / long text, defer with failing malloc, lreply (mpt_context_reply without context)}; plus seeded random histories of "
         "length 6..14 with header widths 0..9, over-long ids, contexts without transport pointer and malformed ops. "
         "non-trivial = a stream/connection request with a reply context whose handler replied more than once or not at all, or a reply through a deferred handle of a connection; an id script whose id needs the top bit or more than one byte (id >= 128), or a history in which the "
         "transport was called and a later answer attempt was refused / made no call, or a send was rejected; counted per "
         "distinct script")
 assumptions = [
-    "malloc never fails in the harness runs; mpt_log only formats its arguments",
+    "malloc/realloc fail only where the script injects it ('r defer nomem': the handle allocation; 'replyfail' acts: growth of "
+    "the stream's write queue); mpt_log only formats its arguments",
     "the transport's send function is the harness callback: it logs id bytes and message and answers from the script's schedule",
     "handles are used as the API permits (no use of a deferred handle after it was released, no use of the context by the "
     "owner after `drop ctx`); the drivers answer bad-op for such lines",
     "ids are uint64_t; header widths up to 4096 bytes are exercised",
+    "datagram connections without peer addresses (_smax = 0, socketpair); the address handling of mpt_outdata_recv/_reply is not exercised",
 ]
 trusted = ["hand-written model MptModel/Impl/Reply.lean tied to mptcore/message/message_id.c, event/reply_deferrable.c, "
-           "event/reply_set.c by harness/drv_reply.c",
-           "the mptio users of the scheme (stream_input.c, stream_reply.c, connection_dispatch.c stream branch, stream_sync.c) and "
-           "mpt++/io_stream.cpp are tied to Impl/Reply.lean (StreamIn, Requester) and the driver-level composition conActs by "
-           "harness/drv_reply.c / drvxx_reply.cpp over socketpairs",
-           "NOT covered: mptio/output_remote.c (not part of any driver), the datagram branch of connection_dispatch.c (needs a "
-           "bound datagram socket with peer addresses), malloc failure inside the reply functions, the by-pointer clone/ref "
-           "methods of the stream's reply context (streamConv clone, streamRef)"]
+           "event/reply_set.c, event/context_reply.c by harness/drv_reply.c",
+           "the mptio users of the scheme (stream_input.c, stream_reply.c, connection_dispatch.c stream and datagram branch, "
+           "outdata_recv.c/outdata_reply.c, stream_sync.c) and mpt++/io_stream.cpp are tied to Impl/Reply.lean (StreamIn, "
+           "Requester incl. failing and re-entrant reply commands) and to the driver-level compositions conActs / conAnswer "
+           "(Driver/Reply.lean: arm, handler acts, generic reply) by harness/drv_reply.c / drvxx_reply.cpp over socketpairs",
+           "NOT covered: mptio/output_remote.c (not part of any driver; remoteSync forwards to mpt_stream_sync), datagram "
+           "sockets with peer addresses, requester side (await/send) of a datagram connection, incomplete frames "
+           "(stream_input.c streamDispatch read loop: property C02), allocation failure other than the two injected ones"]
 
 
 def corpus(chk):
@@ -60,6 +74,11 @@ OPS = ["r arm " + A, "r arm " + B, "r reply 6d31", "r reply none", "r defer", "r
 OPS2 = OPS + ["r arm zero:2", "r arm -", "r probe", "r reref", "r creply -4 -", "r creply 200 61", "r defer nomem", "r lreply 2 6869", "r lreply -3 -", "r lreply 0 61", "r lreply -129 61"]
 SCHEDS = ["r send", "r send fail", "r send ok fail", "r send fail fail fail fail fail fail fail fail"]
 CLOSE = ["r drop 0", "r drop 1", "r drop ctx"]
+
+
+def mkr(w, i):
+    """reply id i for header width w (big-endian, reply mark set)"""
+    return gen.hexs(list((i | (1 << (8 * w - 1))).to_bytes(w, "big"))) if w else ""
 
 
 def scripts(tier, seed, scale=1):
@@ -131,7 +150,8 @@ def scripts(tier, seed, scale=1):
             lines = ["s open %d ro" % w, "s probe"]
             for k, idh in enumerate(ids(w)):
                 lines.append("s req %s %s" % ((idh + ["7a", "", "6100", "00"][k % 4]) or "-", ",".join(seq)))
-            lines += ["s probe", "s close", "s probe", "s open %d" % w, "s probe", "s req %s7a %s" % (ids(w)[1] if w else "", seq[0]), "s probe", "s close"]
+            lines += ["s req %s7b discard" % (ids(w)[1] if w else ""), "s req %s7c %s" % (ids(w)[1] if w else "", seq[1]),
+                      "s probe", "s close", "s probe", "s open %d" % w, "s req %s7b discard" % (ids(w)[1] if w else ""), "s probe", "s req %s7a %s" % (ids(w)[1] if w else "", seq[0]), "s probe", "s close"]
             out.append(("sro:%d/%s" % (w, "+".join(a.replace(":", "") for a in seq)), lines))
     # stream-backed connection (connection_dispatch.c on the deferrable context): same requests, deferred handles
     # answered / dropped afterwards, also after the connection is closed
@@ -146,6 +166,17 @@ def scripts(tier, seed, scale=1):
                 lines += ["c req %s discard" % ((i + "7a") or "-") for i in ids(w)]
                 lines += ["c dreply 0 4444", "c dreply 0 none", "c dreply 1 none", "c dreply 2 -", "c close", "c dreply 3 46", "c dreply 4 none", "c req 0001 ret:0"]
                 out.append(("c:%d/%s" % (w, "+".join(a.replace(":", "") for a in seq)), lines))
+    # reply commands that register a follow-up request while they handle their reply (tags 800000..899999): with 8 and
+    # more outstanding requests the command array has to grow (moves) during the call
+    for w in (1, 2):
+        for n in (1, 3, 8, 9):
+            for first in range(1, min(n, 3) + 1):
+                lines = ["c open %d" % w]
+                for k in range(n):
+                    lines += ["c await %d" % (800010 + 10 * k), "c send %02x" % (0x61 + k)]
+                lines += ["c req %s41 ret:0" % mkr(w, first), "c send 7a", "c req %s42 ret:0" % mkr(w, n + 1), "c send 7b"]
+                lines += ["c await 5", "c req %s43 ret:0" % mkr(w, (first % n) + 1), "c send 7c", "c req %s44 ret:0" % mkr(w, first), "c close"]
+                out.append(("cfu:%d/%d/%d" % (w, n, first), lines))
     # the same over a datagram socket (connection_dispatch.c datagram branch, mpt_outdata_recv / mpt_outdata_reply):
     # every datagram one message, replies are datagrams; long replies (more than the 256-byte reply buffer)
     for w in (0, 1, 2, 9):
@@ -269,6 +300,17 @@ class _XX:
                             lines.append("xr %s %s%02x" % (op, mk(w, i), 0x41 + j))
                         lines += ["xr sync %s57" % mk(w, 1), "xr await 20", "xr send 7a", "xr answer %s55,%s56" % (mk(w, 1), mk(w, n + 1)), "xr close"]
                         out.append(("xr:%d/%d/%s/%s%s" % (w, n, "".join(map(str, order)), via, "F" if base > 10 else ""), lines))
+        # commands that register a follow-up request while they handle their reply (tags 800000..899999)
+        for w in (1, 2):
+            for n in (1, 3, 8, 9):
+                for via in ("answer", "sync"):
+                    for first in range(1, min(n, 3) + 1):
+                        lines = ["xr open %d" % w]
+                        for k in range(n):
+                            lines += ["xr await %d" % (800010 + 10 * k), "xr send %02x" % (0x61 + k)]
+                        lines += ["xr %s %s41" % (via, mk(w, first)), "xr send 7a", "xr %s %s42" % (via, mk(w, n + 1)), "xr send 7b",
+                                  "xr %s %s43" % (via, mk(w, (first % n) + 1)), "xr send 7c", "xr %s %s44" % (via, mk(w, first)), "xr close"]
+                        out.append(("xfu:%d/%d/%s/%d" % (w, n, via, first), lines))
         out.append(("xr:idlen", ["xr open 0", "xr idlen 2", "xr await 3", "xr send 61", "xr answer 800141", "xr idlen 128", "xr idlen 129",
                                  "xr idlen 1", "xr await 4", "xr send 62", "xr answer 8242,8142", "xr idlen 0", "xr await 5", "xr close"]))
         out.append(("xr:misc", ["xr open 0", "xr await 1", "xr send 6162", "xr answer 6364", "xr sync 65", "xr close",
